@@ -55,7 +55,7 @@ fn main() {
                     0
                 }
             };
-            ops_gen::run(v[0], v[1], g(2), g(3), g(4)).map(|r| format!("{:x}", r))
+            ops_gen::run(v[0], v[1], g(2), g(3), g(4), g(5)).map(|r| format!("{:x}", r))
         }));
         cur.store(n << 1, Ordering::SeqCst);
         match r {
